@@ -563,7 +563,9 @@ class SimE(Simulator):
     # -- profile: local archive on an in-memory file system (C39)
     def _gen_archive(self, rng: random.Random, tier: str) -> dict:
         specials = ["a,b", "x;y", "back\\slash", 'q"uote', "it's", "semi; colon", "a, b; c", "tab\there", "comma,",
-                    "plain", "50 %", "a\\,b", "ends\\", "cr\rx", "two\r\rcr", "ff\x0cx", "vt\x0bx", "nel\x85x"]
+                    "plain", "50 %", "a\\,b", "ends\\", "cr\rx", "two\r\rcr", "ff\x0cx", "vt\x0bx", "nel\x85x",
+                    # first characters that spreadsheet "formula guards" like to rewrite, and number look-alikes
+                    "=2*CV, then elute", "@home", "- note", "+ 5 mL", "-x", "=", "'quoted", "-12.5", "1e3", "0x10", " lead"]
         method = []
         n = rng.randint(2, 9)
         for i in range(n):
